@@ -43,7 +43,7 @@ Print Assumptions C24_fee_required_is_ceiling.
    saturated fees cover the requirement for the saturated usage *)
 Theorem C24_group_accepted_iff : forall minFee perByte lsigMax g,
   minFee < 2 ^ 64 -> perByte < 2 ^ 64 -> Forall gtx_bounded g ->
-  int63 (sum_lsig g - Z.of_nat (length g) * lsigMax) ->
+  int63 (sum_lsig g - Z.of_nat (List.length g) * lsigMax) ->
   let '(usage, paid, r) := group_fee_check minFee perByte lsigMax g in
   usage = spec_usage perByte lsigMax g /\ paid = spec_paid g /\
   (r = GFOk <-> fee_required minFee usage < 2 ^ 64 /\ fee_required minFee usage <= paid).
@@ -66,7 +66,7 @@ Print Assumptions C24_fee_factor_closed_form.
 Theorem C24_proposer_payout_closed_form : forall pct fees bonus sink smin,
   pct < 2 ^ 64 -> fees < 2 ^ 64 -> bonus < 2 ^ 64 -> sink < 2 ^ 64 -> smin < 2 ^ 64 ->
   proposer_payout pct fees bonus sink smin =
-    if 2 ^ 64 <=? fees * pct / 100 then PPPanic
+    if 100 <? pct then PPPanic
     else if 2 ^ 64 <=? fees * pct / 100 + bonus then PPErrBonus
     else PPOk (N.min (fees * pct / 100 + bonus) (sink - smin)).
 Proof. exact proposer_payout_spec. Qed.
@@ -103,7 +103,7 @@ Print Assumptions C24_payout_overclaim_error.
 Theorem C24_validate_accepts_iff : forall i, pi_bounded i -> pi_enabled i = true ->
   (validate_for_payouts i = VPOk <->
    pi_hdr_fees i = pi_state_fees i /\
-   pi_hdr_fees i * pi_pct i / 100 < 2 ^ 64 /\
+   pi_pct i <= 100 /\
    payout_cap (pi_pct i) (pi_hdr_fees i) (pi_bonus i) < 2 ^ 64 /\
    pi_payout i <= limit_of i /\
    (pi_generate i = true \/
